@@ -941,7 +941,11 @@ func TestVerifC01Exhaustive(t *testing.T) {
 	for x := 0; x < 65536; x++ {
 		check([]byte{byte(x >> 8), byte(x)}, "len2")
 	}
-	st.Exhaustive("all byte strings of length 0..2; quick tier additionally all 3-byte strings with first byte 82/c2/b8/f8")
+	if vs.Thorough() {
+		st.Exhaustive("all byte strings of length 0..2")
+	} else {
+		st.Exhaustive("all byte strings of length 0..2, and all 3-byte strings with first byte 82/c2/b8/f8")
+	}
 
 	// systematic long-form headers: every tag b8..bf / f8..ff x declared length x
 	// length-of-length, with payload exact / one short / one extra
